@@ -12,51 +12,8 @@ import E3nnVerif.Generated.RTP.P3_1o
 import E3nnVerif.Generated.RTP.C3_1o
 import E3nnVerif.Generated.RTP.S2_1o_fo2
 import E3nnVerif.Generated.RTP.S3_1o_fm
-import E3nnVerif.Generated.RTP.A2_1e
-import E3nnVerif.Generated.RTP.S2_1o2e
-import E3nnVerif.Generated.RTP.A2_1o2e
-import E3nnVerif.Generated.RTP.S2_2x1o
-import E3nnVerif.Generated.RTP.S2_1o1e
-import E3nnVerif.Generated.RTP.A2_1o1e
-import E3nnVerif.Generated.RTP.S2_3o
-import E3nnVerif.Generated.RTP.A2_3o
-import E3nnVerif.Generated.RTP.S2_0e1o2e
-import E3nnVerif.Generated.RTP.N2_1o1o
-import E3nnVerif.Generated.RTP.N2_1e2e
-import E3nnVerif.Generated.RTP.N2_0e1o_2e
-import E3nnVerif.Generated.RTP.S3_1e
-import E3nnVerif.Generated.RTP.A3_1e
-import E3nnVerif.Generated.RTP.S3_0e1o
-import E3nnVerif.Generated.RTP.A3_0e1o
-import E3nnVerif.Generated.RTP.A3_2e
-import E3nnVerif.Generated.RTP.P3_1o_2e
-import E3nnVerif.Generated.RTP.P3m_1o
-import E3nnVerif.Generated.RTP.P3_1e_0e1o
-import E3nnVerif.Generated.RTP.Q3_1o
-import E3nnVerif.Generated.RTP.Q3m_1o
-import E3nnVerif.Generated.RTP.R3_1o
-import E3nnVerif.Generated.RTP.C3m_1o
-import E3nnVerif.Generated.RTP.C3_0e1o
-import E3nnVerif.Generated.RTP.N3_1o
-import E3nnVerif.Generated.RTP.N3_mixed
-import E3nnVerif.Generated.RTP.S4_1o
-import E3nnVerif.Generated.RTP.R4_1o
-import E3nnVerif.Generated.RTP.F4_1e
-import E3nnVerif.Generated.RTP.E4_1o
-import E3nnVerif.Generated.RTP.P4_1o
-import E3nnVerif.Generated.RTP.Y4_1o
-import E3nnVerif.Generated.RTP.S2_2e_fo
-import E3nnVerif.Generated.RTP.S2_1o2e_fo
-import E3nnVerif.Generated.RTP.S3_0e1o_fo
-import E3nnVerif.Generated.RTP.S3_2e_fm
-import E3nnVerif.Generated.RTP.S4_1o_fm
-import E3nnVerif.Generated.RTP.S4_1o_fo
 import E3nnVerif.Generated.RTP.V0
 import E3nnVerif.Generated.RTP.V1
-import E3nnVerif.Generated.RTP.V2
-import E3nnVerif.Generated.RTP.V3
-import E3nnVerif.Generated.RTP.V4
-import E3nnVerif.Generated.RTP.V5
 /- GENERATED: the configurations of this run, for the line-protocol driver -/
 namespace E3nnVerif.Generated.RTP
 open E3nnVerif.Model.RTP
@@ -76,51 +33,8 @@ def registry : List (String × String × Cfg × List E3nnVerif.IR.Node) := [
   ("C3_1o", C3_1o.formula, C3_1o.cfg, C3_1o.prog),
   ("S2_1o_fo2", S2_1o_fo2.formula, S2_1o_fo2.cfg, S2_1o_fo2.prog),
   ("S3_1o_fm", S3_1o_fm.formula, S3_1o_fm.cfg, S3_1o_fm.prog),
-  ("A2_1e", A2_1e.formula, A2_1e.cfg, A2_1e.prog),
-  ("S2_1o2e", S2_1o2e.formula, S2_1o2e.cfg, S2_1o2e.prog),
-  ("A2_1o2e", A2_1o2e.formula, A2_1o2e.cfg, A2_1o2e.prog),
-  ("S2_2x1o", S2_2x1o.formula, S2_2x1o.cfg, S2_2x1o.prog),
-  ("S2_1o1e", S2_1o1e.formula, S2_1o1e.cfg, S2_1o1e.prog),
-  ("A2_1o1e", A2_1o1e.formula, A2_1o1e.cfg, A2_1o1e.prog),
-  ("S2_3o", S2_3o.formula, S2_3o.cfg, S2_3o.prog),
-  ("A2_3o", A2_3o.formula, A2_3o.cfg, A2_3o.prog),
-  ("S2_0e1o2e", S2_0e1o2e.formula, S2_0e1o2e.cfg, S2_0e1o2e.prog),
-  ("N2_1o1o", N2_1o1o.formula, N2_1o1o.cfg, N2_1o1o.prog),
-  ("N2_1e2e", N2_1e2e.formula, N2_1e2e.cfg, N2_1e2e.prog),
-  ("N2_0e1o_2e", N2_0e1o_2e.formula, N2_0e1o_2e.cfg, N2_0e1o_2e.prog),
-  ("S3_1e", S3_1e.formula, S3_1e.cfg, S3_1e.prog),
-  ("A3_1e", A3_1e.formula, A3_1e.cfg, A3_1e.prog),
-  ("S3_0e1o", S3_0e1o.formula, S3_0e1o.cfg, S3_0e1o.prog),
-  ("A3_0e1o", A3_0e1o.formula, A3_0e1o.cfg, A3_0e1o.prog),
-  ("A3_2e", A3_2e.formula, A3_2e.cfg, A3_2e.prog),
-  ("P3_1o_2e", P3_1o_2e.formula, P3_1o_2e.cfg, P3_1o_2e.prog),
-  ("P3m_1o", P3m_1o.formula, P3m_1o.cfg, P3m_1o.prog),
-  ("P3_1e_0e1o", P3_1e_0e1o.formula, P3_1e_0e1o.cfg, P3_1e_0e1o.prog),
-  ("Q3_1o", Q3_1o.formula, Q3_1o.cfg, Q3_1o.prog),
-  ("Q3m_1o", Q3m_1o.formula, Q3m_1o.cfg, Q3m_1o.prog),
-  ("R3_1o", R3_1o.formula, R3_1o.cfg, R3_1o.prog),
-  ("C3m_1o", C3m_1o.formula, C3m_1o.cfg, C3m_1o.prog),
-  ("C3_0e1o", C3_0e1o.formula, C3_0e1o.cfg, C3_0e1o.prog),
-  ("N3_1o", N3_1o.formula, N3_1o.cfg, N3_1o.prog),
-  ("N3_mixed", N3_mixed.formula, N3_mixed.cfg, N3_mixed.prog),
-  ("S4_1o", S4_1o.formula, S4_1o.cfg, S4_1o.prog),
-  ("R4_1o", R4_1o.formula, R4_1o.cfg, R4_1o.prog),
-  ("F4_1e", F4_1e.formula, F4_1e.cfg, F4_1e.prog),
-  ("E4_1o", E4_1o.formula, E4_1o.cfg, E4_1o.prog),
-  ("P4_1o", P4_1o.formula, P4_1o.cfg, P4_1o.prog),
-  ("Y4_1o", Y4_1o.formula, Y4_1o.cfg, Y4_1o.prog),
-  ("S2_2e_fo", S2_2e_fo.formula, S2_2e_fo.cfg, S2_2e_fo.prog),
-  ("S2_1o2e_fo", S2_1o2e_fo.formula, S2_1o2e_fo.cfg, S2_1o2e_fo.prog),
-  ("S3_0e1o_fo", S3_0e1o_fo.formula, S3_0e1o_fo.cfg, S3_0e1o_fo.prog),
-  ("S3_2e_fm", S3_2e_fm.formula, S3_2e_fm.cfg, S3_2e_fm.prog),
-  ("S4_1o_fm", S4_1o_fm.formula, S4_1o_fm.cfg, S4_1o_fm.prog),
-  ("S4_1o_fo", S4_1o_fo.formula, S4_1o_fo.cfg, S4_1o_fo.prog),
   ("V0", V0.formula, V0.cfg, V0.prog),
-  ("V1", V1.formula, V1.cfg, V1.prog),
-  ("V2", V2.formula, V2.cfg, V2.prog),
-  ("V3", V3.formula, V3.cfg, V3.prog),
-  ("V4", V4.formula, V4.cfg, V4.prog),
-  ("V5", V5.formula, V5.cfg, V5.prog)
+  ("V1", V1.formula, V1.cfg, V1.prog)
 ]
 
 end E3nnVerif.Generated.RTP
